@@ -736,6 +736,43 @@ def rule_separator_between_members(ck, prog, fn, rule):
             # no assignment (left): the captured boolean the callback tests
             flags = sorted({n['name'] for n in lf.nodes if n['k'] == 'ref' and 'bool' in (n.get('t') or '') and (n.get('cap') or n.get('sk') in ('capture', 'local'))})
         if len(flags) != 1:
+            # the other idiom: "something has been written already" read off the output string itself - `if (!out.empty())` in front of
+            # the separator, with out empty before the walk and every member appending at least one character on every path
+            out_refs = [strip_casts(lf, s_['obj']) for s_ in seps if s_.get('obj') is not None]
+            out_names = {o.get('name') for o in out_refs if o['k'] == 'ref'}
+            empties = [n for n in lf.nodes if n['k'] == 'call' and strip_targs(n.get('c', '')).rsplit('::', 1)[-1] == 'empty' and n.get('obj') is not None and
+                       strip_casts(lf, n['obj']).get('name') in out_names and not n.get('args')]
+            if len(out_names) == 1 and empties:
+                out = sorted(out_names)[0]
+                g = Graph(prog, lf, inline=None, sync_lambdas=False)
+                sp = [p for p in g.points if p.f is lf and p.n is not None and any(p.n is s_ for s_ in seps)]
+                appends = [p for p in g.points if p.f is lf and p.n is not None and p.n['k'] == 'call' and p.n.get('obj') is not None and
+                           strip_casts(lf, p.n['obj']).get('name') == out and strip_targs(p.n.get('c', '')).rsplit('::', 1)[-1] in ('push_back', 'operator+=') and p not in sp] + \
+                          [p for p in g.points if p.f is lf and p.n is not None and p.n['k'] == 'call' and p.n.get('obj') is not None and strip_casts(lf, p.n['obj']).get('name') == out and
+                           strip_targs(p.n.get('c', '')).rsplit('::', 1)[-1] == 'append' and p not in sp and len(p.n.get('args', [])) == 2 and
+                           strip_casts(lf, p.n['args'][0]).get('v') not in (None, 0) and 'char' in (lf.nodes[p.n['args'][1]].get('t') or '')]
+                # before the walk: the string is a default-constructed local of the enclosing function that nothing writes outside the callback
+                decl_ok = any(d.get('name') == out and (d.get('init') is None or d['init'] < 0 or (f.nodes[d['init']]['k'] == 'construct' and not f.nodes[d['init']].get('args')))
+                              for n in f.nodes if n['k'] == 'declstmt' for d in n['decls'])
+                outer_writes = [n for n in f.nodes if n['k'] == 'call' and n.get('obj') is not None and strip_casts(f, n['obj']).get('name') == out and
+                                strip_targs(n.get('c', '')).rsplit('::', 1)[-1] in ('append', 'push_back', 'operator+=', 'assign', 'operator=', 'insert')]
+                pin_first = {n['i']: True for n in empties}
+                pin_later = {n['i']: False for n in empties}
+                why = None
+                if not decl_ok or outer_writes:
+                    ck.inconclusive(rule, lf, 'separator-between-members', seps[0], 'the output string is not shown to be empty before the first member')
+                    return 1
+                if not appends or g.exit.id in g.reachable_from(g.entry, avoid=appends):
+                    ck.inconclusive(rule, lf, 'separator-between-members', seps[0], 'a member is not shown to add at least one character on every path: emptiness of the output does not identify the first member')
+                    return 1
+                if feasible_reach(g, [g.entry], sp, pins=pin_first) is not None:
+                    why = 'a separator is written in front of the first member'
+                elif feasible_reach(g, [g.entry], [g.exit], avoid=sp, pins=pin_later) is not None:
+                    why = 'a later member can be written without a separator in front of it'
+                ck.verdict(why is None, rule, lf, 'separator-between-members', seps[0],
+                           'a separator precedes every member but the first (first = the output is still empty)' if why is None else
+                           'ToHeader: %s - the header does not parse back to the same list' % why)
+                return 1
             ck.inconclusive(rule, lf, 'separator-between-members', seps[0], 'the "first member" flag of the callback was not recognised')
             return 1
         flag = flags[0]
